@@ -866,7 +866,7 @@ pub fn sentences<N: Nd>(nd: &mut N, ch: u8) {
     witness!(nd, have14.is_some() && k == 3, "sentence ending in a 14-bit value");
 }
 
-/// C15 literal: both channels get a number selection (symbolic values), then 3 symbolic events
+/// C15 literal: both channels get a number selection (symbolic values), then 2 symbolic events
 /// (data entry MSB, data entry LSB, increment, or poll - at arbitrary non-decreasing times) on
 /// either channel, interleaved into one scanner vs. split to two own scanners.
 pub fn interleave<N: Nd>(nd: &mut N, c1: u8, c2: u8) {
@@ -883,7 +883,7 @@ pub fn interleave<N: Nd>(nd: &mut N, c1: u8, c2: u8) {
     check!(none2(&both.feed(&scc(c2, 100, l2))) && none2(&own2.feed(&scc(c2, 100, l2))), "C14 nothing is reported before a number is complete");
     let mut reported = 0;
     let mut k = 0;
-    while k < 3 {
+    while k < 2 {
         let first = nd.bool();
         let kind = nd.u8_le(3);
         let d2 = nd.u8_le(127);
@@ -916,7 +916,7 @@ pub fn interleave<N: Nd>(nd: &mut N, c1: u8, c2: u8) {
         }
         k += 1;
     }
-    witness!(nd, reported >= 2, "two reports");
+    witness!(nd, reported >= 1, "a report");
 }
 
 /// Witness twin: claims poll never reports.
